@@ -4,7 +4,8 @@
 //   chan <mpmc|batch> <capacity request> <P> <C> <items per producer> <gap_us>
 //        RingChannel over the queue: consumers are photon threads on their own vCPUs (recv blocks on the channel's
 //        semaphore), producers are OS threads (send<ThreadPause>) that pause gap_us between items so that the consumers
-//        really go to sleep; the latency of every item (send completion -> recv return) is measured
+//        really go to sleep; the latency of every item (send completion -> recv return) is measured; gap_us = 1 is the
+//        rendezvous mode described at run_chan
 //   run
 // output: produced <p> <n> | got <consumer> <producer> <seq> (in each consumer's own order) | maxavail <n> <cap> |
 //         maxlat_us <n> | result done
@@ -55,12 +56,17 @@ template <class Q> static void run_ring(Q* q, size_t cap, int P, int Cn, uint64_
     printf("maxavail %zu %zu\n", maxavail.load(), cap);
 }
 
+static long now_ns() { return std::chrono::duration_cast<std::chrono::nanoseconds>(std::chrono::steady_clock::now().time_since_epoch()).count(); }
 template <class Q> static void run_chan(size_t creq, int P, int Cn, uint64_t M, uint64_t gap) {
     using Chan = photon::common::FlexRingChannel<Q>;
-    auto ch = Chan::create(creq, 4, 200);
+    // gap == 1: rendezvous mode. Consumers use recv(0, 0) (sleep right after one failed pop, as WorkPool does while tasks run); after
+    // every element a consumer announces when it will call recv() again and the next producer aims its push at that moment
+    // (-600..+1400 ns), so that pushes land around the consumer's decision to go to sleep.
+    bool rdv = gap == 1;
+    auto ch = rdv ? Chan::create(creq, 0, 0) : Chan::create(creq, 4, 200);
     std::vector<std::vector<uint64_t>> got(Cn);
     std::vector<std::vector<long>> sent_at(P, std::vector<long>(M, 0));
-    std::atomic<uint64_t> consumed{0}; std::atomic<long> maxlat{0};
+    std::atomic<uint64_t> consumed{0}, trial{0}; std::atomic<long> maxlat{0}, target{0};
     uint64_t total = (uint64_t)P * M;
     std::vector<std::thread> ts;
     for (int c = 0; c < Cn; ++c) ts.emplace_back([&, c] {
@@ -71,12 +77,23 @@ template <class Q> static void run_chan(size_t creq, int P, int Cn, uint64_t M, 
             long t = now_us(); int p = x >> 40; uint64_t s = x & ((1ULL << 40) - 1);
             long st = ((volatile long*)sent_at[p].data())[s];
             if (st) { long lat = t - st; long m = maxlat.load(); while (lat > m && !maxlat.compare_exchange_weak(m, lat)) {} }
-            got[c].push_back(x); consumed++;
+            got[c].push_back(x);
+            if (rdv) { long T = now_ns() + 3000; target.store(T); consumed++; while (now_ns() < T) {} }
+            else consumed++;
         }
         photon::fini();
     });
     for (int p = 0; p < P; ++p) ts.emplace_back([&, p] {
-        for (uint64_t i = 0; i < M; ++i) { if (gap) usleep(gap); sent_at[p][i] = now_us(); ch->template send<ThreadPause>(item(p, i)); }
+        unsigned rs = 12345 + p;
+        for (uint64_t i = 0; i < M; ++i) {
+            if (rdv) {
+                uint64_t my = trial.fetch_add(1);
+                while (consumed.load() < my) { if (maxlat.load() >= 50000) break; }
+                long T = target.load(); rs = rs * 1103515245 + 12345;
+                if (T) { T += -600 + (long)((rs >> 8) % 2000); while (now_ns() < T) {} }
+            } else if (gap) usleep(gap);
+            sent_at[p][i] = now_us(); ch->template send<ThreadPause>(item(p, i));
+        }
     });
     for (int i = Cn; i < Cn + P; ++i) ts[i].join();
     while (consumed.load() < total) usleep(1000);
